@@ -9,7 +9,7 @@ MODULE = "PQ.Props.C18"
 EXTRA_MODULES = ["PQ.Lemmas.ForeignMut"]
 EXTRA_THEOREMS = ["PQ.readOutcome_specWrite_mutated", "PQ.readOutcome_specWrite_mutated_page0", "PQ.readOutcome_specWrite_codec",
                   "PQ.readAll_specWrite_mutated", "PQ.readOutcome_of_entries", "PQ.next_true_err", "PQ.readAll_of_refused"]
-THEOREMS = ["PQ.C18." + t for t in ("checkPage_translated", "checkPage_eq_source", "checkPage_spec", "checked_page_total", "required_refuses", "optional_refuses", "codec_refused")]
+THEOREMS = ["PQ.C18." + t for t in ("checkPage_translated", "checkPage_eq_source", "pageData_codecs_source", "checkPage_spec", "checked_page_total", "required_refuses", "optional_refuses", "codec_refused")]
 
 MUTS = ["dict", "index", "v2", "valenc:2", "valenc:3", "valenc:4", "valenc:5", "valenc:6", "valenc:7", "valenc:8", "valenc:9",
         "defenc:4", "defenc:0", "repenc:4", "repenc:0", "codec:3", "codec:4", "codec:5", "codec:6", "codec:7"]
